@@ -72,3 +72,79 @@ def compare(rep, what, case, chain, model):
                              {"index": i, "row": real_rows[i] if i < len(real_rows) else None, "n": len(real_rows)})
             return "disagree"
     return "agree"
+
+
+# ----------------------------------------------------------------------------- shrinking L2 ASTs
+
+
+def _variants(rc):
+    """Smaller variants of a recipe AST (one edit each)."""
+    import copy
+
+    sts = rc["statements"]
+    for i in range(len(sts)):
+        v = copy.deepcopy(rc)
+        del v["statements"][i]
+        if v["statements"]:
+            yield v
+
+    def templ_edits(t, path):
+        # path: function that, given a deep copy of rc, returns the template to edit
+        for fi in range(len(t.get("fields", []))):
+            yield ("delfield", path, fi)
+        for fr in range(len(t.get("friends", []))):
+            yield ("delfriend", path, fr)
+        if t.get("count") is not None:
+            yield ("delcount", path, None)
+        if t.get("just_once"):
+            yield ("deljo", path, None)
+        for fi, (n, fd) in enumerate(t.get("fields", [])):
+            if fd[0] == "nested":
+                yield from templ_edits(fd[1], path + [("field", fi)])
+                yield ("unnest", path, fi)
+        for fr, f in enumerate(t.get("friends", [])):
+            if "object" in f:
+                yield from templ_edits(f, path + [("friend", fr)])
+
+    def resolve(v, path):
+        t = v["statements"][path[0][1]]
+        for kind, i in path[1:]:
+            t = t["fields"][i][1][1] if kind == "field" else t["friends"][i]
+        return t
+
+    for si, st in enumerate(sts):
+        if "object" not in st:
+            continue
+        for kind, path, arg in templ_edits(st, [("stmt", si)]):
+            v = copy.deepcopy(rc)
+            t = resolve(v, path)
+            if kind == "delfield":
+                del t["fields"][arg]
+            elif kind == "delfriend":
+                del t["friends"][arg]
+            elif kind == "delcount":
+                t.pop("count", None)
+            elif kind == "deljo":
+                t.pop("just_once", None)
+            elif kind == "unnest":
+                t["fields"][arg][1] = ["lit", 1]
+            yield v
+
+
+def shrink_ast(rc, fails, max_steps=400):
+    steps = 0
+    changed = True
+    while changed and steps < max_steps:
+        changed = False
+        for v in _variants(rc):
+            steps += 1
+            if steps > max_steps:
+                break
+            try:
+                if fails(v):
+                    rc = v
+                    changed = True
+                    break
+            except Exception:  # noqa
+                continue
+    return rc
